@@ -29,7 +29,16 @@ def bounded_task():
                 bound=f"{nr} bodies of up to 3 blocks", cases=nr, seconds=time.time() - t1, backend="enumeration")
         if hit2:
             r2.replay, r2.witness = hit2, hit2["input"]
-        return [r, r2]
+        t2 = time.time()
+        hit3 = c03.search_project_render()
+        r3 = OR(id=f"{PROP}.Bd.project.rendering_per_entity", status=REFUTED if hit3 else PROVED, kind="Bd", role="bounded", target="ford.fortran_project.Project.markdown (real)",
+                desc="a module whose entities' comments use per-document Markdown state (footnotes, reference-style links, an undefined reference), start with '---' / '...' text, "
+                     "carry `summary:` metadata, or stand after a statement that takes no documentation; one- and two-character doc markers: the rendered documentation of every "
+                     "entity holds exactly its own tracer words, in order, and only its own link targets",
+                bound="2 projects of 9 documented entities", cases=2, seconds=time.time() - t2, backend="enumeration")
+        if hit3:
+            r3.replay, r3.witness = hit3, hit3["input"]
+        return [r, r2, r3]
     return Task(f"{PROP}.Bd", PROP, "real parser / markdown", run)
 
 
@@ -49,11 +58,22 @@ def build(tier, seed):
             rd = loader.import_repo("ford.reader")
             return rx_lex.comment_regex_obligations(PROP, "ford.reader._compile_docmark", rd._compile_docmark(m), m)
         tasks.append(Task(f"{PROP}.B.docmark[{m}]", PROP, "ford.reader._compile_docmark", dm))
+    tasks.append(Task(f"{PROP}.B.meta_delimiters", PROP, "ford.utils.BEGIN_RE / END_RE", lambda: metadata.delimiter_obligations(PROP)))
+    tasks.append(Task(f"{PROP}.S.converter_reset", PROP, "ford.sourceform.FortranBase.markdown", lambda: docstrings.converter_reset_obligations(PROP)))
+
+    def _pb():
+        from bounded import c02
+        c = readerblocks.pass_back(PROP)
+        c.search_fn = lambda: c02.lookahead_cases()
+        return c
+    _pb.__name__ = "pass_back"
+    tasks.append(a_task(PROP, _pb))
     tasks.append(bounded_task())
     meta = {
         "trusted_base": TRUSTED_BASE,
         "assumptions": PYVC_ASSUMPTIONS + REVC_ASSUMPTIONS + [
-            "reader contract assumed inside read_docstring: next(source) delivers and removes the first line still to come (StopIteration when none), pass_back(x) puts x back in front",
+            "reader contract assumed inside read_docstring: next(source) delivers and removes the first line still to come (StopIteration when none); pass_back(x) puts x back in front "
+            "(that half is discharged: FortranReader.pass_back is under contract here)",
             "regex constants are opaque inside meta_preprocessor and the marker blocks (uninterpreted match predicate, groups, start index); the doc-marker patterns themselves "
             "are under Engine B contracts (match exactly the lines whose first '!' in code state is followed by the marker; unique comment start)",
         ],
